@@ -58,10 +58,61 @@ def run(rep):
     ]
     crop.drive(rep, runs, claims=lambda tag: tag in CLAIMS)
     crop.parallel_grow_cases(rep, 2 if q else 6, partial=True)
+    relayout_scenario(rep)
     rep.exhaustive = not q
 
 
+def relayout_scenario(rep):
+    """One process, one crop location, two campaigns with different batch layouts, a partial reap in each: PartialReapWorks
+    for the second layout must not depend on anything remembered from the first (Crop.tla's state is per sow: B, bsz, rem,
+    batch are all re-assigned by Sow).  Expectations follow from the batch layout the property prescribes."""
+    import math
+    import shutil
+    import tempfile
+    import contextlib
+    import io
+    from .. import common
+    xyz = common.use_repo()
+
+    def fn(a):
+        return float(100 * a + 3)
+    for first, second in (((12, 3), (13, 4)), ((10, 4), (10, 3)), ((9, 2), (7, 5))):
+        tmp = tempfile.mkdtemp(prefix="c09r-", dir=common.scratch("crops"))
+        try:
+            case = dict(kind="relayout", first=first, second=second)
+            rep.add_case(["relayout", first, second], sample=None)
+            prob = None
+            for n, bs in (first, second):
+                with contextlib.redirect_stdout(io.StringIO()), contextlib.redirect_stderr(io.StringIO()):
+                    c = xyz.Crop(fn=fn, name="relay", parent_dir=tmp, batchsize=bs)
+                    c.sow_combos({"a": list(range(1, n + 1))}, verbosity=0)
+                    nb = math.ceil(n / bs)
+                    grown = 2 if nb > 2 else 1
+                    c.grow(grown, verbosity=0)
+                    res = xyz.Crop(name="relay", parent_dir=tmp).reap(allow_incomplete=True)
+                want = [float(100 * a + 3) if (grown - 1) * bs < a <= grown * bs else None for a in range(1, n + 1)]
+                got = [None if (isinstance(v, float) and math.isnan(v)) else float(v) for v in res]
+                if got != want:
+                    prob = ("campaign with %d settings in batches of %d (after one with %r at the same location): partial reap with batch %d "
+                            "grown gives %r, expected %r (None = missing)" % (n, bs, first, grown, got, want))
+                    break
+                with contextlib.redirect_stdout(io.StringIO()), contextlib.redirect_stderr(io.StringIO()):
+                    c = xyz.Crop(name="relay", parent_dir=tmp)
+                    c.grow_missing(verbosity=0)
+                    full = c.reap()
+                if [float(v) for v in full] != [float(100 * a + 3) for a in range(1, n + 1)]:
+                    prob = "full reap after the partial one (n=%d, batchsize=%d) gives %r" % (n, bs, list(full))
+                    break
+            if prob:
+                rep.add_violation(case, prob, key=dict(tag="reap_value_partial", kind="relayout"))
+        finally:
+            shutil.rmtree(tmp, ignore_errors=True)
+
+
 def replay(rep, saved):
+    if saved.get("kind") == "relayout":
+        relayout_scenario(rep)
+        return
     if saved.get("kind") == "parallel_grow":
         crop.parallel_grow_cases(rep, 2, partial=True)
         return
